@@ -35,6 +35,22 @@ PROPS = {
         level_text="Lean 4 theorems: the crate's CP437 table equals the Unicode consortium table (from CPython) on all 256 bytes and never panics; the ASCII fast path equals the table path; flag set -> lossy UTF-8 (maximal-subpart U+FFFD policy), flag clear -> CP437, total for every byte string, raw name kept verbatim; lossy and strict UTF-8 decoding invert encoding for every string of scalar values (unbounded induction) and strict decoding is sound; writer stores the UTF-8 bytes, sets the flag iff non-ASCII, and reads back the same string. to_char is tied by regenerated translation (kernel-checked over all 256 bytes); the decode branch, std's from_utf8_lossy and the writer path by correspondence",
         level_note="String::from_utf8_lossy / str::from_utf8 / String::as_bytes are std: modelled from the Unicode standard (table 3-7) and RFC 3629 and validated by correspondence (all 1- and 2-byte sequences in quick, all 3-byte sequences in thorough, edge-biased random strings up to 64 KiB). Names longer than 65535 bytes are rejected by the writer (theorem + correspondence); the archive bytes around the name fields (that the reader finds the name where the writer put it) are C01/C02's subject, exercised here by correspondence only",
     ),
+    "C15": dict(
+        props=["ZipVerif.Props.C15"],
+        tie=["ZipVerif.Tie.ZipCrypto"],
+        streams=["zc"],
+        title="ZipCrypto entries: right password decrypts, none/wrong is refused",
+        level_text="Lean 4 theorems for every password, payload, write pattern, CRC and key state: the crate's table is the CRC-32 table of 0xEDB88320 and its cipher is the APPNOTE 6.1 cipher (incl. `|2` vs `|3`); decryption inverts encryption; the writer's stored bytes are the APPNOTE encryption of (11 zero bytes, crc>>24, payload) and `buffer[11]` cannot panic; the right password validates and returns the payload (also for foreign entries under both check-byte rules, and for any split of the reads); no password -> password-required; password ignored on plain entries; validator choice; all 256 check-byte outcomes; a completed read under any password has the declared CRC-32. The cipher model is tied to the source by regenerated translation (CRCTABLE and all seven ZipCryptoKeys functions), reader/writer/open-time decisions by correspondence",
+        level_note="the CRC gate is the C04 layer, modelled here in one line (`crcCheckedRead`) and validated by correspondence; compressors are parameters (the payload is the compressed byte string); `the plaintext does not appear in the file` is an oracle observation, not a theorem; translator and harness are trusted as stated in DESIGN.md section 7",
+    ),
+    "C17": dict(
+        props=["ZipVerif.Props.C17"],
+        tie=["ZipVerif.Tie.Extra"],
+        streams=["align"],
+        title="Aligned entries are aligned; extra data lands where requested",
+        level_text="Lean 4 theorems over every alignment 0..65535, every header offset, name length and large_file setting: the pad aligns the data and is minimal, a successful start_file_aligned is aligned, its assert_eq!/u16 addition/subtractions are unreachable and it never panics, it is refused (InvalidData) exactly when the padding record plus the ZIP64 record exceeds 65535 bytes, the reader recomputes the same data start; validate_extra_data accepts exactly the APPNOTE 4.5 record sequences with user-writable IDs (iff), rejects truncated / ZIP64 / reserved records anywhere, never panics; shared/split/central-only extra data lands verbatim in the local header resp. the central record. Tied to the source by the regenerated EXTRA_FIELD_MAPPING table (Tie obligation) and by correspondence of the whole public call sequences (start_file_aligned, start_file_with_extra_data/write/end_local_start_central_extra_data/end_extra_data, ZipArchive read-back) against the model",
+        level_note="the extra-data calls are modelled as a state machine over the open entry only (write.rs start_file_aligned / end_extra_data / validate_extra_data, read.rs find_content); the rest of ZipWriter (header serialisation, compression switch, central directory) and the archive-level reader are covered by correspondence here and modelled under C01/C02; offsets are assumed below 2^64 - 65585 for the no-panic statements; translator and harness are trusted as stated in DESIGN.md section 7",
+    ),
 }
 
 ALLOWED_AXIOMS = {"propext", "Classical.choice", "Quot.sound"}
